@@ -56,7 +56,8 @@ def runHist (fl : Flags) (b : Block) : Res :=
       let rdsets := (((rl.2.find? (fun l => l.head? = some "rdsets")).getD []).drop 1).headD "intact"
       let (items, _) := buildOracle evs
       -- the operation's own input filter (none: the plain Redefine)
-      let fin := parseFilter ((((rl.2.find? (fun l => l.head? = some "rdfin")).getD []).drop 1).headD "none")
+      let rdfin := ((rl.2.find? (fun l => l.head? = some "rdfin")).getD []).drop 1
+      let fin := parseFilter (rdfin.headD "none") (natOf (rdfin.getD 1 "0"))
       let cgrRedef := if fin.isNone then cgrRedef else callGraph fl.var sc.env bld sc.fn target true fin
       let ctx : Ctx := { env := sc.env, g := cgrRedef.cg.g, funcOf := sc.funcOfKey bld.convs, beh := zeroBeh outCount,
                          memoCopy := fl.memoCopy, publishAfterUpdate := fl.publishAfterUpdate,
